@@ -2,7 +2,7 @@
 specified formula max(len + len/2, len + additional) with saturation."""
 import re
 from facts import callee_name, strip_refs
-from guards import describe
+from guards import describe, inlined_calls
 
 AG = "repr::heap_buffer::amortized_growth"
 SAT_ADD = "core::num::<impl usize>::saturating_add"
@@ -16,6 +16,8 @@ G_FORMS = [
     r"%s\(p1, Div\(p1, const:2\)\)" % re.escape(SAT_ADD),
     r"%s\(p1, Shr\(p1, const:1\)\)" % re.escape(SAT_ADD),
     r"%s\(Div\(p1, const:2\), p1\)" % re.escape(SAT_ADD),
+    # checked_mul(3).unwrap_or(usize::MAX) / 2  ==  saturating_mul(3) / 2
+    r"Div\(core::option::Option::<T>::unwrap_or\(core::num::<impl usize>::checked_mul\(p1, const:3\), const:core::num::<impl usize>::MAX\), const:2\)",
 ]
 S_FORMS = [r"%s\(p1, p2\)" % re.escape(SAT_ADD), r"%s\(p2, p1\)" % re.escape(SAT_ADD)]
 
@@ -60,8 +62,14 @@ def rule_sites(ctx, rule="C12-sites"):
     r = F.bodies.get("repr::Repr::reserve")
     if r:
         n = 0
-        for bb, t in r.calls():
+        for hb, bb, t in inlined_calls(r):
             nme = callee_name(t)
+            if hb is not r:
+                # inside an extracted helper: operands are described in the caller through describe()'s
+                # helper inlining where they matter (realloc capacity); count the site
+                if nme in ("repr::heap_buffer::HeapBuffer::with_additional", "repr::heap_buffer::HeapBuffer::realloc"):
+                    n += len([1 for _, _, ct in inlined_calls(r, depth=0) if ct.get("local_key") == hb.path]) or 1
+                continue
             if nme == "repr::heap_buffer::HeapBuffer::realloc":
                 n += 1
                 cap = describe(r, r.origin_operand(t["args"][1]))
